@@ -213,6 +213,23 @@ func (w *world) execOp(ti, oi int, op *proto.Op, st *opState) {
 		if o.HasConsts {
 			opts.PipelineConstants = constsToMap(o.Consts)
 		}
+		if len(o.PerEP) > 0 {
+			opts.PerEntryPointMap = map[string]msl.EntryPointResources{}
+			for _, ep := range o.EPNames {
+				res := msl.EntryPointResources{Resources: map[ir.ResourceBinding]msl.BindTarget{}}
+				for _, b := range o.PerEP {
+					slot := uint8(b.Target)
+					buf, tex := slot, slot
+					res.Resources[ir.ResourceBinding{Group: b.Group, Binding: b.Binding.Binding}] = msl.BindTarget{
+						Buffer: &buf, Texture: &tex, Sampler: &msl.BindSamplerTarget{Slot: slot}, Mutable: true}
+				}
+				sz := uint8(29)
+				res.SizesBuffer = &sz
+				pcb := uint8(30)
+				res.PushConstantBuffer = &pcb
+				opts.PerEntryPointMap[ep] = res
+			}
+		}
 		before := fp.Hash(&opts)
 		var text string
 		var info msl.TranslationInfo
@@ -296,6 +313,12 @@ func (w *world) execOp(ti, oi int, op *proto.Op, st *opState) {
 			if o.SpecialConstants {
 				opts.SpecialConstantsBinding = &hlsl.BindTarget{Space: 7, Register: 3}
 			}
+			if o.SamplerBufferMap {
+				opts.SamplerBufferBindingMap = map[uint32]hlsl.BindTarget{0: {Space: 4, Register: 0}, 1: {Space: 4, Register: 1}, 2: {Space: 4, Register: 2}}
+			}
+			if o.DynOffsets {
+				opts.DynamicStorageBufferOffsetsTargets = map[uint32]hlsl.OffsetsBindTarget{0: {Space: 5, Register: 0, Size: 2}, 1: {Space: 5, Register: 1, Size: 1}}
+			}
 			w.hlslPrev[ti] = opts
 		}
 		before := fp.Hash(opts)
@@ -325,6 +348,9 @@ func (w *world) execOp(ti, oi int, op *proto.Op, st *opState) {
 				StandardSamplers:   dxil.BindTarget{Space: 2, Register: 0},
 				ComparisonSamplers: dxil.BindTarget{Space: 3, Register: 0},
 			}
+		}
+		if o.SamplerBufferMap {
+			opts.SamplerBufferBindingMap = map[uint32]dxil.BindTarget{0: {Space: 9, Register: 0}, 1: {Space: 9, Register: 1}, 2: {Space: 9, Register: 2}}
 		}
 		before := fp.Hash(&opts)
 		out, err := dxil.Compile(m, opts)
